@@ -1144,10 +1144,14 @@ class PyCdlib:
                                                 True, new_record.file_identifier())
                     self._set_rock_ridge(new_record.rock_ridge.rr_version)
                     cdfp.seek(orig_pos)
-                    block = self.pvd.track_rr_ce_entry(ce_record.bl_cont_area,
-                                                       ce_record.offset_cont_area,
-                                                       ce_record.len_cont_area)
-                    new_record.rock_ridge.update_ce_block(block)
+                    if not (dir_record.is_root and new_record.is_dot()):
+                        # The continuation area of the root's dot record (the
+                        # 'ER' sector) gets its own extent when mastering, so
+                        # it must not be shared with other continuation entries.
+                        block = self.pvd.track_rr_ce_entry(ce_record.bl_cont_area,
+                                                           ce_record.offset_cont_area,
+                                                           ce_record.len_cont_area)
+                        new_record.rock_ridge.update_ce_block(block)
 
                 if rr_cl:
                     child_links.append(new_record)
